@@ -258,6 +258,15 @@ fn build_table(ostr: &str, n: usize, combo: usize) -> Vec<Snap> {
         }
     }
     let f = last.map(field_of).unwrap_or("squawk");
+    // fields that are no sort key at all take "interesting" values (alert status, a stopped surface target, an
+    // obstruction category): nothing but the requested key decides order or presence
+    for (ri, r) in rows.iter_mut().enumerate() {
+        r.surveillance_status = ['P', 'P', 'P', ' ', 'S'][ri % 5];
+        r.ground_movement = [Some(0.0f64), None, Some(15.0), Some(0.0), None][ri % 5].map(f64::to_bits);
+        if f != "category" && !letters.contains(&'c') {
+            r.category = [(2, 4), (2, 7), (4, 3), (2, 5), (0, 0)][ri % 5];
+        }
+    }
     // special squawks in rows that are not first by any key: nothing but the requested key may decide the order
     if f != "squawk" && !letters.contains(&'s') {
         for (ri, r) in rows.iter_mut().enumerate() {
